@@ -43,7 +43,10 @@ RULE = (
     "subsets of Meta's fields including the eq=False ones remote/is_link/destination/nlink} (a mutation "
     "changes those fields alone; the reference applies the drawn key itself and, without a key, Meta's "
     "own equality, which ignores the eq=False fields), shallow, with_renames "
-    "(never with meta_only: asserted by the code), with_unknown. A storage arm attaches a cache "
+    "(never with meta_only: asserted by the code), with_unknown, roots in {None, [()], 1-4 drawn "
+    "non-overlapping keys in drawn order: files, explicit/implicit directories, keys missing on one or both "
+    "sides} (reference = the same table restricted to keys at or below a root, independent of root "
+    "order; not in the storage arm). A storage arm attaches a cache "
     "ObjectStorage (HashFileDB on scratch) to both indexes and turns 1-3 non-root directories into "
     "unloaded .dir entries: loadable (listing object written as reference bytes, files below it come "
     "from the loader) or un-enumerable (object absent), with siblings around them, with_unknown mostly "
@@ -83,6 +86,9 @@ ASSUMPTIONS = [
     "Meta() on an entry without a hash, which is stored as {} and read back as None)",
     "without meta_cmp_key (or with the identity) metas compare by Meta.__eq__, i.e. remote, is_link, "
     "destination and nlink (declared eq=False) do not count; key functions are None-safe like the callers'",
+    "roots do not overlap (no duplicates, no root a prefix of another): each root is diffed on its own, so "
+    "shared keys are reported once per root by design of the loop; roots are not drawn in the storage arm "
+    "(a root inside an un-enumerable directory raises DataIndexDirError from info())",
     "hash_only and meta_only are not combined; with_renames is not combined with meta_only (assert in diff())",
 ]
 
@@ -421,6 +427,32 @@ def _history(draw, spec):
     return ops
 
 
+_rootkind = st.sampled_from([0, 2, 0, 3, 1, 0, 4, 2, 3, 5])
+
+
+def _roots(draw, a, b):
+    """roots option: None (mostly), [()], or 1-4 drawn keys in drawn order - files, explicit and implicit
+    directories, keys present on one side only, keys present nowhere. Overlapping roots (duplicates, one
+    root a prefix of another) are left out: each root is diffed on its own, so the keys they share are
+    reported once per root."""
+    kind = draw(_rootkind)
+    if kind == 0:
+        return None
+    if kind == 5:
+        return [[]]
+    keys = {tuple(e[0]) for spec in (a, b) if spec for e in spec}
+    cands = {k[:i] for k in keys for i in range(1, len(k) + 1)}
+    dirs = sorted(cands - {k for k in keys if k in cands and not any(len(x) > len(k) and x[:len(k)] == k for x in cands)})
+    cands |= {(*d, "zz") for d in dirs[:3]} | {("zz",), ("zz", "a")}
+    cands = sorted(cands)
+    picked = []
+    for _ in range(kind if kind > 1 else 1 + draw(_i4)):
+        r = _pick(draw, cands)
+        if not any(r[:len(p)] == p or p[:len(r)] == r for p in picked):
+            picked.append(r)
+    return [list(r) for r in picked]
+
+
 @st.composite
 def cases(draw, mode=None, renames=None, storage=False, sqlite=False):
     # the rename arm draws hashes from three values and moves files more often, so that several
@@ -464,6 +496,7 @@ def cases(draw, mode=None, renames=None, storage=False, sqlite=False):
         "with_unknown": draw(_i6) == 5,
     }
     case = {"old": a, "new": b, "opts": opts, "ops": ops}
+    opts["roots"] = None if storage else _roots(draw, a, b)
     if sqlite:
         # either side may be an SQLite-backed index (DataIndex.open) that reaches its content through
         # an edit history in one session; at least one side is
@@ -804,6 +837,7 @@ def real_diff(old, new, opts, **over):
         meta_only=o["mode"] == "meta",
         meta_cmp_key=make_cmp_key(o["cmpkey"]),
         shallow=o["shallow"],
+        roots=None if o.get("roots") is None else [tuple(r) for r in o["roots"]],
     ))
 
 
@@ -988,6 +1022,20 @@ def _run(case, odb, sqdir=None, handles=None):  # noqa: C901, PLR0912, PLR0915
     ov, nv = view(fo, False), view(fn, False)
     pv_o, pv_n = view(fo, opts["shallow"]), view(fn, opts["shallow"])
     acc = acceptance(fo, fn, opts)
+    # roots: the same key-by-key table, restricted to the keys at or below any root
+    roots = opts.get("roots")
+    if roots is not None:
+        roots = [tuple(r) for r in roots]
+        if odb is not None:
+            raise HarnessError("roots are not combined with the storage arm")
+        for i, r in enumerate(roots):
+            if any(r[:len(p)] == p or p[:len(r)] == r for p in roots[:i]):
+                raise HarnessError(f"overlapping roots {roots} are outside the domain")
+
+    def covered(k):
+        return roots is None or any(k[:len(r)] == r for r in roots)
+
+    acc = {k: v for k, v in acc.items() if covered(k)}
 
     sq = case.get("sqlite") or {}
     built = {}
@@ -1022,7 +1070,7 @@ def _run(case, odb, sqdir=None, handles=None):  # noqa: C901, PLR0912, PLR0915
                           f"diff(b, a) is not the mirror of diff(a, b): expected {only_fwd}, got {only_rev}"))
 
     # -- (c) an index diffed with itself shows no change --------------------------------------
-    for name, idx, spec, vw in (("old", old, case["old"], pv_o), ("new", new, case["new"], pv_n)):
+    for name, idx, spec, vw, fullv in (("old", old, case["old"], pv_o, ov), ("new", new, case["new"], pv_n, nv)):
         if idx is None:
             continue
         for other in (idx, build_index(spec, odb)):
@@ -1031,10 +1079,16 @@ def _run(case, odb, sqdir=None, handles=None):  # noqa: C901, PLR0912, PLR0915
             if changed or sren or sbad:
                 viols.append(Viol(f"self-diff:{mode}",
                                   f"diff({name}, {name}) reports {changed[:3] or sren[:3] or sbad[:3]}"))
-            elif opts["with_unchanged"] and sorted(k for _, k, _, _ in splain) != sorted(vw):
-                viols.append(Viol(f"self-diff-coverage:{mode}",
-                                  f"diff({name}, {name}, with_unchanged) reports keys "
-                                  f"{[k for _, k, _, _ in splain]}, index has {sorted(vw)}"))
+            elif opts["with_unchanged"]:
+                got_keys = sorted(k for _, k, _, _ in splain)
+                lo = sorted(filter(covered, vw))
+                # a root inside a hashed sub-tree is looked up directly: under shallow the keys below it
+                # may be seen although the walk from () would not reach them
+                hi = lo if roots is None else sorted(filter(covered, fullv))
+                if len(set(got_keys)) != len(got_keys) or not set(lo) <= set(got_keys) <= set(hi):
+                    viols.append(Viol(f"self-diff-coverage:{mode}",
+                                      f"diff({name}, {name}, with_unchanged) reports keys {got_keys}, "
+                                      f"index has {lo}" + ("" if hi == lo else f" .. {hi}")))
 
     # -- (e) rename detection ------------------------------------------------------------------
     dup_hash = False
@@ -1160,6 +1214,23 @@ def _run(case, odb, sqdir=None, handles=None):  # noqa: C901, PLR0912, PLR0915
     for o in ("with_unchanged", "cmpkey", "shallow", "with_renames", "with_unknown"):
         if opts[o]:
             classes.append(o)
+    if roots is not None:
+        classes.append("roots")
+        if len(roots) >= 2:
+            classes.append("roots>=2")
+        if roots == [()]:
+            classes.append("roots:[()]")
+
+        def has_node(v, r):
+            return any(k[:len(r)] == r for k in v)
+
+        miss = [i for i, r in enumerate(roots) if has_node(ov, r) != has_node(nv, r) or not (has_node(ov, r) or has_node(nv, r))]
+        if miss:
+            classes.append("roots:root-missing-on-a-side")
+            if any(j > miss[0] and (roots[j] in ov or roots[j] in nv) for j in range(len(roots))):
+                classes.append("roots:missing-root-before-root-with-entry")
+        if any(r not in ov and r not in nv and (has_node(ov, r) or has_node(nv, r)) for r in roots):
+            classes.append("roots:implicit-directory")
     if isinstance(cmpkey, str):
         classes.append(f"cmpkey:{cmpkey}")
     reads_noneq = bool(set(cmp_fields(cmpkey) or ()) & set(NONEQ))
